@@ -13,6 +13,7 @@ import Acpi.Tbl
 import Acpi.Tables.Entries
 import Acpi.Tables.Build
 import Acpi.Tables.Wf
+import Acpi.Tables.Whole
 import Acpi.Spec.Walk
 import Acpi.Spec.Codes
 import Acpi.Spec.Layout
@@ -122,6 +123,15 @@ def cfgOfTable (t : String) (ctor : List Nat) : Option TblCfg :=
   | "rimt" => some cfgRIMT | "viot" => some cfgVIOT | "hest" => some cfgHEST | "rqsc" => some cfgRQSC
   | _ => none
 
+def tableIdOf (t : String) (ctor : List Nat) : Option TableId :=
+  match t with
+  | "xsdt" => some .xsdt | "mcfg" => some .mcfg
+  | "madt" => some (.madt (if ctor.getD 0 0 = 0 then 0 else UInt32.ofNat (ctor.getD 1 0)))
+  | "srat" => some .srat | "hmat" => some .hmat | "pptt" => some .pptt | "cedt" => some .cedt
+  | "rhct" => some (.rhct (UInt64.ofNat (ctor.getD 0 0)))
+  | "rimt" => some .rimt | "viot" => some .viot | "hest" => some .hest | "rqsc" => some .rqsc
+  | _ => none
+
 structure Obs where
   raw : Bytes
   handle : Option Nat
@@ -169,7 +179,11 @@ def headFails (tname : String) (i : Nat) (m impl : Bytes) (cw cntOff : Nat) : Li
   if m.length ≠ impl.length then
     return [⟨"corr", "C03,C04", "head-length", s!"{tname} op#{i}: model head {m.length} bytes, impl {impl.length}"⟩]
   let mut fs : List Fail := []
-  if m.getD 9 0 ≠ impl.getD 9 0 then
+  -- the checksum byte is a function of all the other bytes: its difference speaks about C01 only
+  -- when every other head byte agrees (otherwise it is explained by that other difference, and
+  -- whether the implementation's image still sums to zero is decided by the sum oracle)
+  let others (bs : Bytes) : Bytes := bs.mapIdx fun j b => if j = 9 then 0 else b
+  if m.getD 9 0 ≠ impl.getD 9 0 ∧ others m = others impl then
     fs := ⟨"corr", "C01", "checksum-byte", s!"{tname} op#{i}: model {m.getD 9 0} impl {impl.getD 9 0}"⟩ :: fs
   if (m.drop 4).take 4 ≠ (impl.drop 4).take 4 then
     fs := ⟨"corr", "C02", "length-field", s!"{tname} op#{i}"⟩ :: fs
@@ -410,6 +424,19 @@ def checkTbl (case impl : List String) : List Fail := Id.run do
             fails := fails ++ (headFails tname 9999 t.head (img.take hl) cfg.cw cntOff)
           else
             fails := fails ++ [⟨"corr", "C03", "final-image-body", s!"{tname}: the body of the model image differs from the implementation's"⟩]
+        -- the whole-program model (Acpi.Tables.Whole.runTable — what the whole-table theorems
+        -- C01–C05 `whole_*` are about): same image, the revision byte being an observed parameter
+        -- and the checksum byte a function of the rest
+        match tableIdOf tname ctor with
+        | none => pure ()
+        | some T =>
+          let wops := ops.map fun op => ({ k := op.kind, ctor := op.ctor, opts := op.opts } : AddOp)
+          match runTable T ⟨oid, otab, orev⟩ wops with
+          | none => pure ()       -- a refusal: decided op by op above
+          | some (_, tm) =>
+            let strip (bs : Bytes) : Bytes := bs.take 8 ++ bs.drop 10
+            if strip tm.image ≠ strip img then
+              fails := fails ++ [⟨"corr", "C04", "whole-program-image", s!"{tname}: runTable's image differs from the implementation's at byte {firstDiffAt (strip tm.image) (strip img)} (bytes 8, 9 left out)"⟩]
         match Spec.tableEntries shape img with
         | .error e => fails := fails ++ [⟨"prop", "C03", if nRdpas > 0 then "walk-with-rdpas" else "walk", s!"{tname}: {e}"⟩]
         | .ok es =>
